@@ -103,8 +103,9 @@ def coq_props(prop_file):
             in_ax = True
             continue
         if in_ax:
-            m = re.match(r"^([A-Za-z_][A-Za-z0-9_.']*)\s*:", line)
-            if m:
+            # an axiom is printed as `Name : type`, the type wrapped onto indented lines when long
+            m = re.match(r"^([A-Za-z_][A-Za-z0-9_.']*)\s*(:.*)?$", line)
+            if m and not line.startswith(("Closed under", "COQC", "COQDEP", "File ")):
                 axioms.add(m.group(1))
             elif line and not line[0].isspace():
                 in_ax = False
